@@ -19,6 +19,7 @@ from typing import Any, Dict, List, Optional, Set, Tuple
 
 from ..core import AnalysisError, ClassInfo, Ctx, FuncInfo, body_without_docstring, calls_in, dotted, norm, parents_map, walk_no_nested
 from ..decide import A, PathEnumerator, f_and, f_atoms, f_eval, f_not, f_or, path_formula, paths_of, valuations
+from ..fold import Folder
 from ..regions import exc_class_of
 
 MODS = ("pydsdl._namespace", "pydsdl._namespace_reader", "pydsdl._dsdl", "pydsdl._dsdl_definition")
@@ -73,6 +74,8 @@ def _annot_is_set(a: Optional[ast.AST]) -> bool:
 def rule_r1(ctx: Ctx) -> None:
     repo = ctx.repo
     ctx.rule("C10.R1", "order taint: unordered collections (sets, rglob results) are sorted before they are returned or drive an order-sensitive loop", min_instances=6)
+    _LOG_ONLY.clear()
+    _LOG_ONLY.update(_find_log_only(ctx.repo))
     UNORDERED_HELPERS.clear()
     funcs = [f for f in repo.all_functions().values() if f.module.name in MODS]
     # interprocedural seed: parameters that receive unordered arguments
@@ -199,14 +202,46 @@ def _generator_feeds_unordered_consumers(repo: Any, fn: FuncInfo) -> bool:
         return False
     from ..core import parents_map
 
-    sites = _call_sites_of(repo, fn)
+    sites = list(_call_sites_of(repo, fn))
+    # the generator handed to map() as a function: the map expression stands for (a sequence of) its calls
+    for other in repo.all_functions().values():
+        for m_ in ast.walk(other.node):
+            if isinstance(m_, ast.Call) and dotted(m_.func) == "map" and m_.args and isinstance(m_.args[0], (ast.Name, ast.Attribute)) and (dotted(m_.args[0]) or "").split(".")[-1] == fn.name:
+                try:
+                    r_ = repo.resolve_expr(other.module, m_.args[0], other.cls)
+                except Exception:
+                    r_ = None
+                if r_ is fn:
+                    sites.append((other, m_))
+    # any other reference to the function (stored, passed on) is a use this rule cannot follow
     if not sites:
         return False
     for other, c in sites:
         pm = parents_map(other.node)
+        # wrappers that hand the elements on in the order they come
+        for _ in range(4):
+            up = pm.get(c)
+            if isinstance(up, ast.Call) and c in up.args and (dotted(up.func) or "") in ("itertools.chain.from_iterable", "chain.from_iterable", "itertools.chain", "chain", "iter", "filter", "itertools.filterfalse", "filterfalse"):
+                c = up
+            elif isinstance(up, ast.Starred) and isinstance(pm.get(up), ast.Call) and (dotted(pm[up].func) or "") in ("itertools.chain", "chain"):
+                c = pm[up]
+            else:
+                break
         par = pm.get(c)
         if isinstance(par, ast.Call) and (dotted(par.func) in ("set", "frozenset") or dotted(par.func) in SORTERS) and c in par.args:
             continue
+        if isinstance(par, ast.Call) and c in par.args and isinstance(par.func, ast.Attribute) and par.func.attr in ("update", "union", "intersection_update", "difference_update", "symmetric_difference_update", "issubset", "issuperset", "isdisjoint") and isinstance(par.func.value, ast.Name):
+            # poured into a local that is a set (bound to set() / a set display / a set comprehension, or annotated as one)
+            nm = par.func.value.id
+            binds = [st for st in ast.walk(other.node) if (isinstance(st, ast.Assign) and any(isinstance(t, ast.Name) and t.id == nm for t in st.targets)) or (isinstance(st, ast.AnnAssign) and isinstance(st.target, ast.Name) and st.target.id == nm)]
+
+            def is_set(st: ast.AST) -> bool:
+                v = getattr(st, "value", None)
+                ann = norm(st.annotation) if isinstance(st, ast.AnnAssign) else ""
+                return isinstance(v, (ast.Set, ast.SetComp)) or (isinstance(v, ast.Call) and dotted(v.func) in ("set", "frozenset")) or "set[" in ann.lower() or ann.lower() in ("set", "typing.set")
+
+            if binds and all(is_set(st) for st in binds):
+                continue
         if isinstance(par, ast.comprehension):
             comp = pm.get(par)
             if isinstance(comp, ast.SetComp):
@@ -270,6 +305,18 @@ def _in_logging(n: ast.AST, pm: Dict[ast.AST, ast.AST]) -> bool:
     return False
 
 
+_LOG_ONLY: Set[str] = set()  # functions of the repository whose whole body is logging calls (filled by rule_r1 for the tree analysed)
+
+
+def _find_log_only(repo: Any) -> Set[str]:
+    out = set()
+    for fn in repo.all_functions().values():
+        body = body_without_docstring(fn.node)
+        if body and all(isinstance(st, ast.Expr) and isinstance(st.value, ast.Call) and (dotted(st.value.func) or "").startswith(LOG_PREFIXES) for st in body):
+            out.add(fn.name)
+    return out
+
+
 def _loop_is_commutative(loop: ast.For, search_result: bool = False, generator_consumers_unordered: bool = False) -> Tuple[bool, str]:
     def ok_stmt(s: ast.stmt) -> bool:
         if isinstance(s, ast.Pass):
@@ -277,7 +324,7 @@ def _loop_is_commutative(loop: ast.For, search_result: bool = False, generator_c
         if isinstance(s, ast.Expr) and isinstance(s.value, ast.Call):
             f = s.value.func
             name = dotted(f) or ""
-            if name.startswith(LOG_PREFIXES):
+            if name.startswith(LOG_PREFIXES) or name.split(".")[-1] in _LOG_ONLY:
                 return True
             if isinstance(f, ast.Attribute) and f.attr in COMMUTATIVE_METHODS:
                 return True
@@ -440,22 +487,73 @@ def rule_r4(ctx: Ctx) -> None:
 
 
 def rule_r5(ctx: Ctx) -> None:
-    ctx.rule("C10.R5", "directory arguments are resolved (symlinks, relative spelling) before de-duplication / comparison", min_instances=3)
-    f1 = ctx.func("_namespace._construct_lookup_directories_path_list")
-    sets = [n for n in ast.walk(f1.node) if isinstance(n, ast.SetComp)]
-    good = len(sets) == 1 and norm(sets[0].elt) == "%s.resolve()" % norm(sets[0].generators[0].target) and norm(sets[0].generators[0].iter) == f1.params[1]
-    ext = [c for c in calls_in(f1.node) if isinstance(c.func, ast.Attribute) and c.func.attr == "extend" and norm(c.func.value) == f1.params[1] and norm(c.args[0]) == f1.params[0]]
-    order_ok = bool(ext) and bool(sets) and ext[0].lineno < sets[0].lineno
-    ctx.check(good and order_ok, f1.short, "{x.resolve() for x in lookups + roots}", "lookup and root directories are merged, then resolved, then de-duplicated (so equivalent spellings collapse)", f1.where())
-    rn = ctx.func("_namespace.read_namespace")
-    stores = [norm(st.value) for st in walk_no_nested(rn.node) if isinstance(st, ast.Assign) and norm(st.targets[0]) == rn.params[0]]
-    ctx.check(stores == ["Path(%s).resolve()" % rn.params[0]], rn.short, str(stores), "the root namespace directory is resolved before use", rn.where())
-    f3 = ctx.func("_namespace._ensure_no_namespace_name_collisions_or_nested_root_namespaces")
-    stores = [norm(st.value) for st in walk_no_nested(f3.node) if isinstance(st, ast.Assign) and norm(st.targets[0]) == f3.params[0]]
-    ctx.check(stores == ["{x.resolve() for x in %s}" % f3.params[0]], f3.short, str(stores), "directories are resolved before they are compared pairwise", f3.where())
-    init = ctx.func("_dsdl_definition.DSDLDefinition.__init__")
-    stores = {norm(st.targets[0]): norm(st.value) for st in walk_no_nested(init.node) if isinstance(st, ast.Assign) and len(st.targets) == 1}
-    ctx.check(stores.get("self._file_path") == "Path(%s).resolve()" % init.params[1] and stores.get("self._root_namespace_path") == "Path(%s).resolve()" % init.params[2], init.short, "file and root paths resolved", "a definition's identity is computed from resolved paths", init.where())
+    """resolution before comparison, observed: the entry points are evaluated over directory arguments one of which is another
+    spelling (a symbolic link) of a real directory; the abstract `resolve()` maps the alias to the real path"""
+    from ..absint import APath, Raised, call_fn, construct
+    from ..fold import Sym, Unfoldable
+    from . import reader_common as R
+
+    ctx.rule("C10.R5", "directory arguments are resolved (symlinks, relative spelling) before de-duplication / comparison / listing: an alias of a directory behaves exactly like the directory", min_instances=3)
+    saved_alias, saved_fs = dict(APath.ALIASES), list(APath.FS)
+    APath.ALIASES = {"/link/ns": "/w/ns"}
+    APath.FS = ["/w/ns/A.1.0.dsdl", "/w/ns/sub/B.1.0.dsdl", "/w/other/X.1.0.dsdl"]
+    try:
+        # the pairwise check: an alias and a directory inside the real one are nested roots; an alias and the real directory are
+        # one directory
+        f3 = ctx.func("_namespace._ensure_no_namespace_name_collisions_or_nested_root_namespaces")
+        mod = f3.module
+        hook = R._hook(ctx, mod, [])
+        outcomes = {}
+        for label, dirs, allow in (("alias + directory inside the real one", ["/link/ns", "/w/ns/sub"], True), ("directory inside the real one + alias", ["/w/ns/sub", "/link/ns"], True), ("alias + the real directory", ["/link/ns", "/w/ns"], False)):
+            try:
+                call_fn(ctx, f3, [[APath(d) for d in dirs], allow], hook=hook, keep=tuple(mod.functions))
+                outcomes[label] = "accepted"
+            except Raised as r:
+                outcomes[label] = r.cls_name
+            except Unfoldable as ex:
+                raise AnalysisError("%s: cannot evaluate over syntactic paths: %s" % (f3.short, ex))
+            ctx.count()
+        want = {"alias + directory inside the real one": "NestedRootNamespaceError", "directory inside the real one + alias": "NestedRootNamespaceError", "alias + the real directory": "accepted"}
+        ctx.check(outcomes == want, f3.short, str(outcomes), "directories are resolved before they are compared pairwise", f3.where(), {"expected": want})
+        # the lookup list: root + lookups merged, resolved, de-duplicated
+        f1 = ctx.func("_namespace._construct_lookup_directories_path_list")
+        try:
+            lst = call_fn(ctx, f1, [[APath("/w/ns")], [APath("/link/ns"), APath("/w/other")], True], hook=hook, keep=tuple(mod.functions))
+        except (Raised, Unfoldable) as ex:
+            raise AnalysisError("%s: cannot evaluate over syntactic paths: %s" % (f1.short, ex))
+        got = sorted(str(x) for x in lst)
+        ctx.count()
+        ctx.check(got == ["/w/ns", "/w/other"], f1.short, "root + [alias of the root, another directory] -> %s" % got, "lookup and root directories are merged, resolved and de-duplicated (so equivalent spellings collapse)", f1.where())
+        # read_namespace given an alias lists the real directory
+        rn = ctx.func("_namespace.read_namespace")
+        log: List[Any] = []
+        hook2 = R._hook(ctx, mod, log, record=["_complete_read_function", "_construct_lookup_directories_path_list", "normalize_paths_argument_to_list"], results={
+            "dsdl_file_sort": lambda xs: list(xs), "file_sort": lambda xs: list(xs),
+            "_complete_read_function": lambda *a, **k: Sym(direct=["DIRECT-TYPES"], transitive=["TRANSITIVE-TYPES"]),
+            "_construct_lookup_directories_path_list": lambda roots, lookups, *a, **k: list(roots) + [x for x in lookups if x not in list(roots)],
+            "normalize_paths_argument_to_list": lambda x=None: [] if x is None else list(x) if isinstance(x, (list, tuple)) else [x],
+        })
+        try:
+            res = call_fn(ctx, rn, [APath("/link/ns")], hook=hook2, keep=tuple(mod.functions))
+        except (Raised, Unfoldable) as ex:
+            raise AnalysisError("%s: cannot evaluate over the abstract file system: %s" % (rn.short, ex))
+        crf = [a for name, a, k in log if name == "_complete_read_function"]
+        tp = sorted(str(d._file_path if hasattr(d, "_file_path") else d.file_path) for d in (crf[0][0] if crf else []))
+        ctx.count()
+        ctx.check(res == ["DIRECT-TYPES"] and tp == ["/w/ns/A.1.0.dsdl", "/w/ns/sub/B.1.0.dsdl"], rn.short, "read_namespace(alias of ns) lists %s" % tp, "the root namespace directory is resolved before use", rn.where())
+        # a definition built from an alias spelling has the real paths
+        dd = ctx.cls("_dsdl_definition.DSDLDefinition")
+        try:
+            d = construct(ctx, dd, APath("/link/ns/sub/B.1.0.dsdl"), APath("/link/ns"), hook=R._hook(ctx, dd.module, []))
+            f = Folder({"d": d}, ctx.repo, dd.module, None, R._hook(ctx, dd.module, []))
+            paths = (str(f.fold(ast.parse("d.file_path", mode="eval").body)), str(f.fold(ast.parse("d.root_namespace_path", mode="eval").body)))
+        except (Raised, Unfoldable) as ex:
+            raise AnalysisError("DSDLDefinition(...) over an alias spelling: %s" % ex)
+        ctx.count()
+        init = ctx.func("_dsdl_definition.DSDLDefinition.__init__")
+        ctx.check(paths == ("/w/ns/sub/B.1.0.dsdl", "/w/ns"), init.short, "file and root paths resolved: %s" % (paths,), "a definition's identity is computed from resolved paths", init.where())
+    finally:
+        APath.ALIASES, APath.FS = saved_alias, saved_fs
 
 
 def rule_r6(ctx: Ctx) -> None:
